@@ -835,6 +835,35 @@ func runC16(w *World, r *Report) {
 	}
 
 	shareRule(w, r, "C16.option-lists-are-copied", "an option list handed on is never appended to in place: what GetComposeOptions returns and what the agents append their own options to is a slice of its own, or the option list of one call ends up in storage another call reads", 1, "C09", "C09.append-alias")
+	r.Rule("C16.pass-through-designation-refused", "a designation that lands on a pass-through node is refused when it carries component options OR names a path below the node — each reason alone is enough (a pass-through node has no options and nothing below it): the refusal in extractOption is entered directly from both tests, not from their conjunction", 1)
+	{
+		eo := w.Fn("compose", "extractOption")
+		fPT := w.Field("compose", "composableRunnable", "isPassthrough")
+		n := 0
+		instrs(eo, func(in ssa.Instruction) {
+			ret, ok := in.(*ssa.Return)
+			if !ok || len(ret.Results) != 2 || isNilConst(ret.Results[1]) {
+				return
+			}
+			if !hasGuard(ret.Block(), func(g guard) bool { return g.pol && isLoadOfField(g.cond, fPT) }) {
+				return
+			}
+			n++
+			direct := 0
+			for _, p := range ret.Block().Preds {
+				if iff, isIf := p.Instrs[len(p.Instrs)-1].(*ssa.If); isIf && p.Succs[0] == ret.Block() {
+					if op, _, _, isCmp := asCmp(iff.Cond); isCmp && (op == token.GTR || op == token.NEQ || op == token.GEQ) {
+						direct++
+					}
+				}
+			}
+			r.Check(direct >= 2, "C16.pass-through-designation-refused", fmt.Sprintf("extractOption: refusal #%d for a pass-through node is entered from either test", n), ret.Pos(), fmt.Sprintf("%d tests lead straight to it", direct), "the refusal needs both reasons at once: a component option (WithChatModelOption) designated to a pass-through node, and callbacks designated to a path below one (NewNodePath(\"pt\", \"inner\")), are accepted without an error and silently dropped — an option addressed to a node that cannot take it must be an error")
+		})
+		if n == 0 {
+			undecidedf("C16.pass-through-designation-refused: no refusal under isPassthrough found in extractOption")
+		}
+	}
+
 	r.Rule("C16.every-call-form-gets-the-run-context", "wrapRunnableCtx — what puts the graph's per-run context (option extraction, graph callbacks) in front of a compiled graph — replaces all four call forms of the runnable (Invoke, Stream, Collect, Transform): a form it forgets runs without initGraphCallbacks, so undesignated callbacks given to that entry point reach neither the graph nor any node", 1)
 	{
 		wr := w.Fn("compose", "runnablePacker.wrapRunnableCtx")
